@@ -636,7 +636,27 @@ func vxC07IsCtxErr(err error) bool {
 
 // vxC07RunWriters runs one batch of concurrent writeContext calls through a fresh writer over a
 // fresh connection and judges it.
+// vxC07Unconfirmed counts watchdog expiries that a second run of the same case did not repeat (a stalled
+// machine, not a hang: a hang of the code under test comes back every time).
+var vxC07Unconfirmed int32
+
+// vxC07RunWriters runs the case; a verdict that rests on a watchdog alone counts only if a second run of the
+// same case ends the same way.
 func vxC07RunWriters(c *vxC07WCase, fault vxC07Fault) (*vxC07WOut, error) {
+	o, err := vxC07RunWritersOnce(c, fault)
+	if err != nil && strings.HasPrefix(err.Error(), "watchdog:") {
+		time.Sleep(2 * time.Second)
+		o2, err2 := vxC07RunWritersOnce(c, fault)
+		if err2 != nil && strings.HasPrefix(err2.Error(), "watchdog:") {
+			return o2, fmt.Errorf("%v (twice)", err2)
+		}
+		atomic.AddInt32(&vxC07Unconfirmed, 1)
+		return o2, err2
+	}
+	return o, err
+}
+
+func vxC07RunWritersOnce(c *vxC07WCase, fault vxC07Fault) (*vxC07WOut, error) {
 	out := &vxC07WOut{}
 	n := len(c.Frames)
 	frames := make([][]byte, n)
@@ -904,6 +924,11 @@ func TestVxC07Writers(t *testing.T) {
 			if len(c.Frames) == 0 || c.Proto < 1 || c.Proto > 5 {
 				return nil
 			}
+			defer func() {
+				if atomic.SwapInt32(&vxC07Unconfirmed, 0) > 0 {
+					k.Class("unconfirmed-watchdog (a second run of the case did not repeat it)")
+				}
+			}()
 			wr := c.Writer
 			if wr == "coalesce" {
 				wr = fmt.Sprintf("coalesce/%dus", c.WindowUS)
@@ -1174,6 +1199,20 @@ type vxC07COut struct {
 }
 
 func vxC07RunConn(c *vxC07CCase) (*vxC07COut, error) {
+	o, err := vxC07RunConnOnce(c)
+	if err != nil && strings.HasPrefix(err.Error(), "watchdog:") {
+		time.Sleep(2 * time.Second)
+		o2, err2 := vxC07RunConnOnce(c)
+		if err2 != nil && strings.HasPrefix(err2.Error(), "watchdog:") {
+			return o2, fmt.Errorf("%v (twice)", err2)
+		}
+		atomic.AddInt32(&vxC07Unconfirmed, 1)
+		return o2, err2
+	}
+	return o, err
+}
+
+func vxC07RunConnOnce(c *vxC07CCase) (*vxC07COut, error) {
 	out := &vxC07COut{}
 	hsWrites, hsBytes, err := vxC07Handshake(c.Proto)
 	if err != nil {
@@ -1547,6 +1586,11 @@ func TestVxC07Conn(t *testing.T) {
 			if len(c.Queries) < 1 || c.Proto < 1 || c.Proto > 5 {
 				return nil
 			}
+			defer func() {
+				if atomic.SwapInt32(&vxC07Unconfirmed, 0) > 0 {
+					k.Class("unconfirmed-watchdog (a second run of the case did not repeat it)")
+				}
+			}()
 			o, err := vxC07RunConn(c)
 			if err != nil {
 				return err
